@@ -26,6 +26,7 @@ EXPLANATION = (
     ' Round-4 triage: (3, extended) the relative-mode total is raised to position + visible amount before the maximum position is derived from it; (12) INV-RENDER - when rendering moves / clamps the position for the size at hand, the canvases cached for other sizes are dropped (shared with C06.9). Round 5: (13) the one-shot scroll request is reset on every path through _adjust_trim_top; (14) the wheel arithmetic of ScrollBar normalises a from-the-end position first.'
     ' Round 6: (15) every normal return of Scrollable.render() has stored the flag keypress() routes by (_forward_keypress), also the early return for content that fits (fix 2cfcfcf).'
     ' Round 7: (16) the cview top / left trims are mirror images (a second trim adds to the offset a view already has): the slice of a canvas that contains pre-trimmed views is still rows p.. of it.'
+    ' Round 8: (17) WRITER: every store into ScrollBar._scrollbar_width is floored at 1 (render() reads the raw attribute).'
 )
 NOT_DECIDED = "0 <= position <= total - height after every history as a value statement, thumb monotonicity, rounding of the thumb, wheel handling, relative-scroll estimates."
 ASSUMPTIONS = []
